@@ -283,9 +283,10 @@ class Ctx:
             lines = open(trace).readlines()
             ctx_ev = [json.loads(l) for l in lines[max(0, (at or 1) - 4):(at or 1)]] if at else []
             detail = "%s: trace of %d events rejected by %s at event %s: %s" % (what, n_events, module, at, (rej.group(2)[:400] if rej else (st.get("spec_violation") or out[-600:])))
-            self.violation(detail, {"k": "trace", "module": module, "trace_file": trace, "rejected_at": at, "last_events": ctx_ev}, cmd="trace", mode=module)
-            # keep the trace next to the replay files
             keep = os.path.join(VERIF, "replays", "%s-%s.ndjson" % (self.prop, module))
+            self.violation(detail, {"k": "trace", "module": module, "trace_file": trace, "kept_trace": keep, "constants": st.get("constants"), "invariants": st.get("invariants"),
+                                    "rejected_at": at, "last_events": ctx_ev}, cmd="trace", mode=module)
+            # keep the trace next to the replay files
             os.makedirs(os.path.dirname(keep), exist_ok=True)
             shutil.copy(trace, keep)
         return ok
@@ -370,6 +371,7 @@ class Ctx:
             shown = 0
             for i, v in enumerate(self.violations[:10]):
                 path = os.path.join(VERIF, "replays", "%s-%s-%d.json" % (self.prop, self.tier, i))
+                v = dict(v, property=self.prop, tier=self.tier, seed=self.seed)
                 json.dump(v, open(path, "w"), indent=1)
                 print("VIOLATION property=%s replay=%s" % (self.prop, path))
                 print("  " + v["detail"][:600])
